@@ -142,7 +142,8 @@ def publication_rules(prog, chk, pid):
                 if recv in last_full:
                     chk.fail(P("snapshot-reads"), m.qualname, "%s.__coords loaded twice (lines %d and %d) without scale() in between" % (recv, last_full[recv], ln), "%s:%d" % (m.file, ln), "two separate loads of the coordinate tuple in one method can observe different versions of the point")
                 else:
-                    unpack = isinstance(par, ast.Assign) and isinstance(par.targets[0], (ast.Tuple, ast.List))
+                    # one load of the tuple, either unpacked at once or bound to a local whose items are used afterwards (`coords = self.__coords; coords[2]`)
+                    unpack = isinstance(par, ast.Assign) and len(par.targets) == 1 and isinstance(par.targets[0], (ast.Tuple, ast.List, ast.Name)) and par.value is node
                     chk.require(unpack, P("snapshot-reads"), m.qualname, "%s = %s.__coords" % (ast.unparse(par.targets[0]) if unpack else "?", recv), "%s:%d" % (m.file, ln), "all coordinates used together are taken from one load of the tuple", "coordinate tuple is not taken as one snapshot (tuple unpack of a single load)")
                 last_full[recv] = ln
 
